@@ -517,3 +517,29 @@ pub fn doubling_chain_parts() -> BoxedStrategy<(Value, Vec<String>)> {
         })
         .boxed()
 }
+
+/// A credential with an array of more than 2^16 elements of which a Custom strategy hides a few
+/// (first ones, ones beyond index 65535, the last): positions, counters and indices held in 16 bits
+/// go wrong here. Only a handful of disclosures, so every component handles it quickly.
+pub fn huge_array_issue_spec() -> BoxedStrategy<IssueSpec> {
+    (select(&[65_537usize, 65_600, 66_000, 70_001][..]), proptest::collection::vec(any::<u32>(), 1..5), fmt_strategy(), alg_strategy(), any::<bool>(), any::<bool>())
+        .prop_map(|(n, picks, fmt, alg, decoys, dotted)| {
+            let readings: Vec<Value> = (0..n).map(|i| Value::from((i % 251) as u64)).collect();
+            let claims = serde_json::json!({"iss": "https://issuer.example", "exp": 4_000_000_000u64, "readings": readings, "unit": "mV"});
+            let mut idx: Vec<usize> = vec![];
+            for (k, p) in picks.iter().enumerate() {
+                idx.push(match (k + *p as usize) % 5 {
+                    0 => (*p as usize) % 4,
+                    1 => 65_536 + (*p as usize) % (n - 65_536),
+                    2 => n - 1,
+                    3 => 65_535,
+                    _ => (*p as usize) % n,
+                });
+            }
+            idx.sort_unstable();
+            idx.dedup();
+            let paths = idx.iter().map(|i| if dotted { format!("$.readings.[{}]", i) } else { format!("$.readings[{}]", i) }).collect();
+            IssueSpec { claims, strat: Strat::Custom(paths), decoys, fmt, alg, holder: HolderKey::None }
+        })
+        .boxed()
+}
